@@ -10,85 +10,84 @@ import (
 	"strings"
 )
 
-// C11: from tss/coordinator.go, go.mod and the pinned conc module
-//   - how handleError classifies: for every case of its switch, `As:<type>` (errors.As into a variable of that type)
-//     or `Type:<type>` (case of a type switch on the error value), in source order
-//   - does retry() hand ExcludePeers(ValidCoordinators(), excluded) to the elector and the same excluded list to start()
-//   - does Execute return before handleError when the process is not Retryable()
-//   - which function conc's error pools aggregate with under the module's Go version (errors.Join from go1.20 on)
+// C11: from tss/coordinator.go, the six tss process files, go.mod and the pinned conc module — located by SHAPE (the
+// names of locals, receivers, parameters and import aliases are free), each fact an Option (none = T-TIE-UNAVAILABLE):
+//   classifyCases  : how handleError classifies — for every case of its switch `As:<type>` (errors.As of the function's
+//                    error parameter into a variable of that pointer type; the package qualifier is dropped) or
+//                    `Type:<type>` (a type switch on the error value), in source order
+//   retryExcludes  : retry() elects among ExcludePeers(<process>.ValidCoordinators(), E) and calls start(…, E) where E is
+//                    its []peer.ID parameter (the election may sit one helper call away)
+//   retryableGuard : in Execute, is handleError reached only when <process>.Retryable() holds
+//   retryable      : the literal each of the six Retryable() methods returns
+//   concJoin       : which function conc's error pools aggregate with under the installed toolchain
 func init() {
 	extractors["C11"] = func(o *Out) {
 		f := o.ParseFile("tss/coordinator.go")
-		cases := []string{}
+		// ------------------------------------------------------------ classifyCases
+		cases, casesOK := []string{}, false
 		if fd := FindFunc(f, "Coordinator", "handleError"); fd != nil {
-			vars := map[string]string{} // local `var x *T` declarations
+			errParam := c07ParamOfType(fd, "error")
+			vars := map[string]string{} // local `var x *T` declarations → T without package qualifier
 			Walk(fd.Body, func(n ast.Node) bool {
 				if vs, ok := n.(*ast.ValueSpec); ok && vs.Type != nil {
 					for _, nm := range vs.Names {
-						vars[nm.Name] = strings.TrimPrefix(Src(vs.Type), "*")
+						vars[nm.Name] = c11TypeName(vs.Type)
 					}
 				}
 				return true
 			})
 			Walk(fd.Body, func(n ast.Node) bool {
+				if casesOK {
+					return false
+				}
 				switch sw := n.(type) {
 				case *ast.TypeSwitchStmt:
 					for _, c := range sw.Body.List {
 						for _, t := range c.(*ast.CaseClause).List {
-							cases = append(cases, "Type:"+strings.TrimPrefix(Src(t), "*"))
+							cases = append(cases, "Type:"+c11TypeName(t))
 						}
 					}
+					casesOK = true
 					return false
 				case *ast.SwitchStmt:
 					if sw.Tag != nil {
 						return true
 					}
+					local := []string{}
 					for _, c := range sw.Body.List {
 						for _, e := range c.(*ast.CaseClause).List {
 							call, ok := e.(*ast.CallExpr)
-							if ok && Src(call.Fun) == "errors.As" && len(call.Args) == 2 && Src(call.Args[0]) == "err" {
-								cases = append(cases, "As:"+vars[strings.TrimPrefix(Src(call.Args[1]), "&")])
-							} else {
-								cases = append(cases, "Other:"+Src(e))
+							if ok && strings.HasSuffix(Src(call.Fun), ".As") && len(call.Args) == 2 && Src(call.Args[0]) == errParam {
+								if u, ok := call.Args[1].(*ast.UnaryExpr); ok {
+									if t, ok := vars[Src(u.X)]; ok {
+										local = append(local, "As:"+t)
+										continue
+									}
+								}
 							}
+							local = append(local, "Other")
 						}
+					}
+					if len(local) > 0 {
+						cases, casesOK = local, true
 					}
 					return false
 				}
 				return true
 			})
 		}
-		retryExcludes := false
-		if fd := FindFunc(f, "Coordinator", "retry"); fd != nil {
-			elect, start := false, false
-			Walk(fd.Body, func(n ast.Node) bool {
-				if c, ok := n.(*ast.CallExpr); ok {
-					s := Src(c)
-					if strings.HasSuffix(Src(c.Fun), ".Coordinator") && len(c.Args) == 2 &&
-						Src(c.Args[1]) == "common.ExcludePeers(tssProcesses[0].ValidCoordinators(), excludedPeers)" {
-						elect = true
-					}
-					if Src(c.Fun) == "c.start" && len(c.Args) == 5 && Src(c.Args[4]) == "excludedPeers" {
-						start = true
-					}
-					_ = s
-				}
-				return true
-			})
-			retryExcludes = elect && start
+		if !casesOK {
+			o.Unavailable("classifyCases", "handleError or its classifying switch not found")
 		}
-		retryableGuard := false
-		if fd := FindFunc(f, "Coordinator", "Execute"); fd != nil {
-			seenGuard := false
-			for _, st := range fd.Body.List {
-				if is, ok := st.(*ast.IfStmt); ok && Src(is.Cond) == "!tssProcesses[0].Retryable()" &&
-					len(is.Body.List) == 1 && Src(is.Body.List[0]) == "return err" {
-					seenGuard = true
-				}
-				if rs, ok := st.(*ast.ReturnStmt); ok && strings.Contains(Src(rs), "c.handleError(") {
-					retryableGuard = seenGuard
-				}
-			}
+		// ------------------------------------------------------------ retryExcludes
+		retryOK, retryExcludes, retryWhy := c11RetryExcludes(f)
+		if !retryOK {
+			o.Unavailable("retryExcludes", retryWhy)
+		}
+		// ------------------------------------------------------------ retryableGuard
+		guardOK, guard, guardWhy := c11RetryableGuard(f)
+		if !guardOK {
+			o.Unavailable("retryableGuard", guardWhy)
 		}
 		// Go language version of the module and conc's aggregator for it
 		goMinor := 0
@@ -123,34 +122,268 @@ func init() {
 				})
 			}
 			o.Facts["conc_join"] = join
+			if join == "" {
+				o.Unavailable("concJoin", "conc's multierror file for this toolchain was not found in the module cache")
+			}
 			o.Lean.WriteString("/-- what conc's `multierror.Join` is bound to for this module's Go version -/\n")
-			o.Lean.WriteString("def concJoin : String := " + LeanStr(join) + "\n\n")
+			o.Lean.WriteString("def concJoin : Option String := " + LeanOpt(join != "", LeanStr(join)) + "\n\n")
 		} else {
-			o.Lean.WriteString("def concJoin : String := \"\"\n\n")
+			o.Unavailable("concJoin", "go.mod not readable")
+			o.Lean.WriteString("def concJoin : Option String := none\n\n")
 		}
 		// what each of the six process kinds answers to Retryable(): the returned literal
-		retry := []string{}
+		retry, retryTabOK := []string{}, true
 		for _, k := range []string{"ecdsa/keygen", "ecdsa/signing", "ecdsa/resharing", "frost/keygen", "frost/signing", "frost/resharing"} {
-			recv := map[string]string{"keygen": "Keygen", "signing": "Signing", "resharing": "Resharing"}[k[strings.Index(k, "/")+1:]]
-			ans := "?"
-			if fd := FindFunc(o.ParseFile("tss/"+k+"/"+k[strings.Index(k, "/")+1:]+".go"), recv, "Retryable"); fd != nil && fd.Body != nil && len(fd.Body.List) == 1 {
+			base := k[strings.Index(k, "/")+1:]
+			recv := map[string]string{"keygen": "Keygen", "signing": "Signing", "resharing": "Resharing"}[base]
+			ans := ""
+			if fd := FindFunc(o.ParseFile("tss/"+k+"/"+base+".go"), recv, "Retryable"); fd != nil && fd.Body != nil && len(fd.Body.List) == 1 {
 				if rs, ok := fd.Body.List[0].(*ast.ReturnStmt); ok && len(rs.Results) == 1 {
-					ans = Src(rs.Results[0])
+					if id, ok := rs.Results[0].(*ast.Ident); ok && (id.Name == "true" || id.Name == "false") {
+						ans = id.Name
+					}
 				}
+			}
+			if ans == "" {
+				retryTabOK = false
+				o.Unavailable("retryable", "tss/"+k+": Retryable() is not a single `return true|false`")
+				break
 			}
 			retry = append(retry, k+"="+ans)
 		}
 		o.Facts["retryable"] = retry
-		o.Lean.WriteString("/-- `Retryable()` of the six tss process kinds (the literal each returns) -/\n")
-		o.Lean.WriteString("def retryable : List String := " + LeanStrList(retry) + "\n\n")
 		o.Facts["classify_cases"] = cases
 		o.Facts["retry_excludes"] = retryExcludes
-		o.Facts["retryable_guard"] = retryableGuard
+		o.Facts["retryable_guard"] = guard
 		o.Facts["go_minor"] = goMinor
+		o.Lean.WriteString("/-- `Retryable()` of the six tss process kinds (the literal each returns) -/\n")
+		o.Lean.WriteString("def retryable : Option (List String) := " + LeanOpt(retryTabOK, LeanStrList(retry)) + "\n\n")
 		o.Lean.WriteString("/-- the cases of handleError's switch in source order -/\n")
-		o.Lean.WriteString("def classifyCases : List String := " + LeanStrList(cases) + "\n\n")
-		o.Lean.WriteString("def retryExcludes : Bool := " + strconv.FormatBool(retryExcludes) + "\n")
-		o.Lean.WriteString("def retryableGuard : Bool := " + strconv.FormatBool(retryableGuard) + "\n")
+		o.Lean.WriteString("def classifyCases : Option (List String) := " + LeanOpt(casesOK, LeanStrList(cases)) + "\n\n")
+		o.Lean.WriteString("def retryExcludes : Option Bool := " + LeanOpt(retryOK, strconv.FormatBool(retryExcludes)) + "\n")
+		o.Lean.WriteString("def retryableGuard : Option Bool := " + LeanOpt(guardOK, strconv.FormatBool(guard)) + "\n")
 		o.Lean.WriteString("def goMinor : Nat := " + strconv.Itoa(goMinor) + "\n")
 	}
+}
+
+// c11TypeName: `*pkg.T` / `*T` / `pkg.T` → `T`
+func c11TypeName(e ast.Expr) string {
+	if s, ok := e.(*ast.StarExpr); ok {
+		e = s.X
+	}
+	if s, ok := e.(*ast.SelectorExpr); ok {
+		return s.Sel.Name
+	}
+	return Src(e)
+}
+
+// c11ElectionArgOK: is `call` an elector call `X.Coordinator(ctx, <…>.ExcludePeers(<…>.ValidCoordinators(), E))`
+func c11ElectionArgOK(call *ast.CallExpr, excl string, locals map[string]ast.Expr) (isElection, ok bool) {
+	sel, isSel := call.Fun.(*ast.SelectorExpr)
+	if !isSel || sel.Sel.Name != "Coordinator" || len(call.Args) != 2 {
+		return false, false
+	}
+	arg := call.Args[1]
+	if id, isID := arg.(*ast.Ident); isID { // a local that was assigned the candidate list
+		if r, ok := locals[id.Name]; ok {
+			arg = r
+		}
+	}
+	ex, isCall := arg.(*ast.CallExpr)
+	if !isCall || !strings.HasSuffix(Src(ex.Fun), "ExcludePeers") || len(ex.Args) != 2 {
+		return true, false
+	}
+	vc, isCall := ex.Args[0].(*ast.CallExpr)
+	return true, isCall && strings.HasSuffix(Src(vc.Fun), ".ValidCoordinators") && Src(ex.Args[1]) == excl
+}
+
+// c11Locals: the single-assignment locals `x := <expr>` / `x, err := <expr>` of a function body
+func c11Locals(body *ast.BlockStmt) map[string]ast.Expr {
+	out := map[string]ast.Expr{}
+	Walk(body, func(n ast.Node) bool {
+		if as, ok := n.(*ast.AssignStmt); ok && len(as.Rhs) == 1 && len(as.Lhs) >= 1 {
+			if id, ok := as.Lhs[0].(*ast.Ident); ok {
+				out[id.Name] = as.Rhs[0]
+			}
+		}
+		return true
+	})
+	return out
+}
+
+// c11RetryExcludes: (located, value, why-not-located)
+func c11RetryExcludes(f *ast.File) (bool, bool, string) {
+	fd := FindFunc(f, "Coordinator", "retry")
+	if fd == nil {
+		return false, false, "retry not found"
+	}
+	excl := c07ParamOfType(fd, "[]peer.ID", "peer.IDSlice")
+	if excl == "" {
+		return false, false, "retry has no []peer.ID parameter"
+	}
+	electSeen, electOK, startSeen, startOK := false, false, false, false
+	var helperCalls []*ast.CallExpr
+	Walk(fd.Body, func(n ast.Node) bool {
+		c, ok := n.(*ast.CallExpr)
+		if !ok {
+			return true
+		}
+		if is, ok2 := c11ElectionArgOK(c, excl, c11Locals(fd.Body)); is {
+			electSeen, electOK = true, ok2
+		}
+		if sel, ok := c.Fun.(*ast.SelectorExpr); ok {
+			if sel.Sel.Name == "start" && len(c.Args) >= 1 {
+				startSeen = true
+				startOK = Src(c.Args[len(c.Args)-1]) == excl
+			} else if _, isRecv := sel.X.(*ast.Ident); isRecv {
+				helperCalls = append(helperCalls, c)
+			}
+		}
+		return true
+	})
+	if !electSeen { // one level of same-file helper: a method that is handed `excl`
+		for _, hc := range helperCalls {
+			name := hc.Fun.(*ast.SelectorExpr).Sel.Name
+			var h *ast.FuncDecl
+			for _, d := range f.Decls {
+				if m, ok := d.(*ast.FuncDecl); ok && m.Name.Name == name && m.Recv != nil {
+					h = m
+				}
+			}
+			if h == nil {
+				continue
+			}
+			pos := -1
+			for i, a := range hc.Args {
+				if Src(a) == excl {
+					pos = i
+				}
+			}
+			if pos < 0 {
+				continue
+			}
+			k, pname := 0, ""
+			for _, p := range h.Type.Params.List {
+				for _, nm := range p.Names {
+					if k == pos {
+						pname = nm.Name
+					}
+					k++
+				}
+			}
+			Walk(h.Body, func(n ast.Node) bool {
+				if c, ok := n.(*ast.CallExpr); ok {
+					if is, ok2 := c11ElectionArgOK(c, pname, c11Locals(h.Body)); is {
+						electSeen, electOK = true, ok2
+					}
+				}
+				return true
+			})
+		}
+	}
+	if !electSeen || !startSeen {
+		return false, false, "the elector call or the call of start was not found in retry (nor one helper call away)"
+	}
+	return true, electOK && startOK, ""
+}
+
+// c11RetryableGuard: (located, handleError is only reached when Retryable() holds, why-not-located). Understood shapes, at
+// the top level of Execute: `if !P.Retryable() { return <not handleError> } … return handleError(…)` and
+// `if P.Retryable() { return handleError(…) } … return <not handleError>`.
+func c11RetryableGuard(f *ast.File) (bool, bool, string) {
+	fd := FindFunc(f, "Coordinator", "Execute")
+	if fd == nil {
+		return false, false, "Execute not found"
+	}
+	isHandle := func(n ast.Node) bool {
+		found := false
+		Walk(n, func(m ast.Node) bool {
+			if c, ok := m.(*ast.CallExpr); ok && strings.HasSuffix(Src(c.Fun), ".handleError") {
+				found = true
+			}
+			return true
+		})
+		return found
+	}
+	locals := c11Locals(fd.Body)
+	pos := func(e ast.Expr) (bool, bool) {
+		if id, isID := e.(*ast.Ident); isID {
+			if r, ok := locals[id.Name]; ok {
+				return c11RetryableCondPos(r)
+			}
+		}
+		return c11RetryableCondPos(e)
+	}
+	retryableCond := func(e ast.Expr) (neg bool, ok bool) {
+		if p, isP := e.(*ast.ParenExpr); isP {
+			e = p.X
+		}
+		if u, isU := e.(*ast.UnaryExpr); isU && u.Op.String() == "!" {
+			n, ok := pos(u.X)
+			return !n, ok
+		}
+		return pos(e)
+	}
+	mentionsRetryable := false
+	Walk(fd.Body, func(n ast.Node) bool {
+		if c, ok := n.(*ast.CallExpr); ok && strings.HasSuffix(Src(c.Fun), ".Retryable") {
+			mentionsRetryable = true
+		}
+		return true
+	})
+	handleSeen := false
+	guarded := false
+	sawNegGuard := false
+	for _, st := range fd.Body.List {
+		switch s := st.(type) {
+		case *ast.IfStmt:
+			neg, ok := retryableCond(s.Cond)
+			if !ok {
+				if isHandle(s) {
+					return false, false, "handleError is called under a condition the translator does not understand"
+				}
+				continue
+			}
+			if !neg { // if P.Retryable() { … }
+				if isHandle(s.Body) {
+					handleSeen, guarded = true, true
+				}
+				if s.Else != nil && isHandle(s.Else) {
+					handleSeen, guarded = true, false
+				}
+			} else { // if !P.Retryable() { return … }
+				if isHandle(s.Body) {
+					handleSeen, guarded = true, false
+				} else if k := len(s.Body.List); k > 0 {
+					if _, isRet := s.Body.List[k-1].(*ast.ReturnStmt); isRet {
+						sawNegGuard = true
+					}
+				}
+				if s.Else != nil && isHandle(s.Else) {
+					handleSeen, guarded = true, true
+				}
+			}
+		case *ast.ReturnStmt:
+			if isHandle(s) {
+				handleSeen = true
+				guarded = sawNegGuard
+			}
+		}
+	}
+	if !handleSeen {
+		return false, false, "no call of handleError at the top level of Execute"
+	}
+	if !guarded && mentionsRetryable {
+		// Retryable() is consulted, but not in one of the two shapes understood here: do not guess
+		return false, false, "Execute consults Retryable() in a shape the translator does not understand"
+	}
+	return true, guarded, ""
+}
+
+func c11RetryableCondPos(e ast.Expr) (bool, bool) {
+	c, ok := e.(*ast.CallExpr)
+	if ok && strings.HasSuffix(Src(c.Fun), ".Retryable") && len(c.Args) == 0 {
+		return false, true
+	}
+	return false, false
 }
